@@ -14,6 +14,43 @@ CLAIMED = {
              'Pool (worker loop exit, call() variants, one stop task per worker, joiner order, future-before-push). These are necessary '
              'conditions; FIFO/loss-freedom under real interleavings is NOT decided by this technique.',
         design='5/C19', note='trusts clang 14 CFG, libstdc++ semantics of mutex/condition_variable/queue/packaged_task, driver instantiation set'),
+
+    'C07': dict(
+        technique='static analysis: interprocedural escaping-exception fixpoint + CFG must-pass/post-dominance + member-order (LAYOUT) rules over the libTooling fact base',
+        text='Decides the structural links of the reader pipeline: thread entries cannot leak an exception; catch-all handlers forward current_exception and '
+             'end-of-data on all paths; header promise set exactly once under a test-and-set flag and on every normal exit of each Parser::run; Reader '
+             'status gating, handler closes/marks error/rethrows; close() shuts the result queue down before joining, is idempotent and raises the stop flag; '
+             'destructors under io/ and thread/ swallow; members referenced by threads are declared before the joiner; producers cannot block on a shut-down '
+             'queue. NOT decided: deadlock freedom under interleavings, thread leak counts, which error is first.',
+        design='5/C07', note='trusts clang CFG/try ranges (no EH edges), std throw model limited to future::get/rethrow_exception/at(); driver instantiation set'),
+    'C08': dict(
+        technique='static analysis: error-discipline (ERRDISC) three-valued path walk from every OS/zlib/bz2/lz4 call on the write path + CFG pairing rules',
+        text='Decides that no OS/library error on the write path can reach a normal exit (result tested, failing edge throws), that reliable_write completes '
+             'short writes, that each Compressor::close flushes the layer, fsyncs when requested and closes the descriptor in that order, that the write thread '
+             'forwards exceptions into the promise and shuts the queue down, that every Writer mutator is gated by ensure_cleanup, close() gets the future, '
+             'end-of-data is pushed once, and encoder/compressor errors travel as futures. NOT decided: bytes on disk for every fault offset (needs fault injection), '
+             'partial-write semantics inside zlib/bz2.',
+        design='5/C08', note='trusts the frozen error-convention table (DESIGN appendix B), clang CFG, driver instantiation set'),
+    'C14': dict(
+        technique='static analysis: exact character-set (interval) evaluation of the escapers\' predicates and bit-slice symbolic evaluation of hex/UTF-8 emitters, compared with the parsers\' own delimiter/decoder tables',
+        text='Decides exactly (over all 0x110000 code points, by interval arithmetic on the condition ASTs, never by running code): the OPL pass-through set is disjoint from every '
+             'delimiter the OPL reader reacts to; every code point is passed or escaped; escape frame and hex alphabet match the reader; hex numerals are positional and within the reader\'s '
+             'digit limit; UTF-8 encode/decode tables; the XML entity table covers & < > " \' \\n \\r \\t with well-formed references; every object string flows through the escaper; '
+             'cursor advances are NUL-guarded and the UTF-8 decode is bounded. NOT decided: value-level round trip of whole strings, expat behaviour, malformed continuation bytes.',
+        design='5/C14', note='trusts clang constant folding/AST, the driver instantiation set; CHARSET engine cross-checked against brute force on synthetic predicates'),
+    'C16': dict(
+        technique='static analysis: ORDERTYPE abstract interpretation - proof that comparators are comparison-only, then exhaustive enumeration of all weak orderings of arguments and constants',
+        text='Decides for ALL 64-bit ids (finite exhaustive abstraction, not sampling): id_order is comparison-only and a strict weak order equal to the documented 0/negative/positive rule; '
+             'tuple comparators are mirror-image lexicographic products whose key lists agree with each other, with id_order and with operator==; delegating operators reduce to the base '
+             'relation; each CheckOrder handler throws iff a later type was seen or the id is not strictly after the stored maximum, and updates its state on accepted paths; '
+             'ObjectPointerCollection forwards comparators unchanged. NOT decided: INT64_MIN through abs(), partially-set timestamps, semantics of std::tuple/std::stable_sort.',
+        design='5/C16', note='trusts clang constant folding and CFG; std::tuple operator< and std algorithms assumed per the standard'),
+    'C20': dict(
+        technique='static analysis: switch/dispatch table extraction from the instantiated visitor code compared against an oracle built from the library\'s own declarations (item_type, is_compatible_to, Handler tables)',
+        text='Decides for every apply_item_impl overload, the diff dispatcher, DynamicHandler, ChainHandler and wrapper_handler: per case label the right callbacks in the right order with the '
+             'right cast target and constness; exhaustiveness with a throwing default; pack-order braced-list application and flush exactly once after the item loop; ItemIterator filters on '
+             'every move; DiffIterator set_diff mirror conditions, shift order, end guards; InputIterator end state/refill. NOT decided: DiffIterator behaviour over all run-length patterns.',
+        design='5/C20', note='trusts clang template instantiation of drivers/c20_extra.cpp, CFG'),
 }
 
 NOT_APPLICABLE = {
